@@ -59,6 +59,14 @@ func parseXML(data []byte) (*XNode, error) {
 		switch t := tok.(type) {
 		case xml.StartElement:
 			n := &XNode{Name: t.Name.Local, Space: t.Name.Space, Attrs: map[string]string{}}
+			// well-formedness constraint "unique attribute specification", which the decoder does not check
+			seenAttr := map[xml.Name]bool{}
+			for _, a := range t.Attr {
+				if seenAttr[a.Name] {
+					return nil, fmt.Errorf("attribute %s:%s given twice on element %s", a.Name.Space, a.Name.Local, t.Name.Local)
+				}
+				seenAttr[a.Name] = true
+			}
 			for _, a := range t.Attr {
 				if a.Name.Space == "xmlns" || (a.Name.Space == "" && a.Name.Local == "xmlns") {
 					continue // a namespace declaration, not an attribute
